@@ -30,10 +30,11 @@ var suite = flag.String("suite", "c18", "which suite")
 var bit15 = flag.Bool("bit15", false, "c16: also try 16-bit hash-move values with the unused bit 15 set (outside the domain of C05/C16; diagnostic)")
 
 type env struct {
-	c *common.Ctx
-	r *common.Result
-	m *common.Model
-	s *implutil.Stream
+	c   *common.Ctx
+	r   *common.Result
+	m   *common.Model
+	s   *implutil.Stream
+	reg int // next entry of the regression corpus
 }
 
 func main() {
@@ -202,6 +203,219 @@ func Battery(rng *rand.Rand) (posgen.Pos, bool) {
 	return p, true
 }
 
+
+// c18Regression runs first in suite c18: positions on which an earlier (seeded or found) defect of
+// the exchange test showed.  1-3: a bishop uncovered LATER in the exchange, after its side has already
+// recaptured with a rook/queen while it had no pawn/knight/bishop attacker (stale progress marker
+// "no more bishops"); from /tmp/mutout_C18/2 (README + demo/see_latebishop_test.go).
+var c18Regression = []string{
+	"4r2k/4q3/8/r3p3/8/2Q2N2/1B6/6K1 w - - 0 1",                   // Nf3xe5 = 0 (Bb2 behind the queen joins last)
+	"7r/1k6/8/6P1/8/7Q/3b4/2B2K2 w - - 0 1",                       // Qh3-h6 = -400 (g5 pawn capturing opens d2-h6)
+	"3r4/2p4p/2N1kp2/6p1/p1p1P3/N1r1B1RP/5b2/5KQ1 w - - 2 40",     // Nc6-d4 = 0 (enemy bishop e3 capturing uncovers Bf2)
+	"4r2k/4q3/8/r3p3/8/2Q2N2/1B6/6K1 b - - 0 1",                   // same placement, other side to move
+	"6k1/1b6/2q2n2/8/R3P3/8/4Q3/4R2K b - - 0 1",                   // the first position with colours exchanged (Nf6xe4 = 0)
+}
+
+// Stacked builds an exchange on one target square t in which both sides have 2-5 attackers arranged
+// in LINES through t (batteries): each of the 8 directions may carry a row of 1-3 men next to each
+// other, the men on a diagonal being bishops/queens (or, directly at t, a pawn of the colour that
+// attacks t from there, or a king), the men on a file/rank rooks/queens (or a king directly at t);
+// colours are mixed inside a row, so that a man is uncovered when the man in front of it - its own
+// queen/rook, or an enemy pawn/bishop/rook/queen that captures on t - leaves the line.  The order
+// inside a row is biased to "valuable in front, cheap behind" (Q before B, Q before R), which makes
+// the cheaper piece join only after a more valuable piece of the same side has already captured.
+// With lateMinor one side X is given NO pawn, knight or directly attacking bishop (only rooks/queens
+// bear on t at the start) but at least one bishop hidden behind a front man on a diagonal.  Knights on
+// knight squares and kings next to t (last attackers) are added at random.
+func Stacked(rng *rand.Rand, lateMinor bool) (posgen.Pos, bool) {
+	var p posgen.Pos
+	p.Full = 1 + rng.IntN(60)
+	p.Black = rng.IntN(2) == 1
+	tf, tr := 1+rng.IntN(6), 1+rng.IntN(6)
+	if rng.IntN(4) == 0 {
+		tf, tr = rng.IntN(8), rng.IntN(8)
+	}
+	t := tr*8 + tf
+	xBlack := rng.IntN(2) == 1 // the side without minor attackers (lateMinor)
+	if rng.IntN(6) != 0 {
+		k := []int{gP, gP, gN, gB, gR, gQ}[rng.IntN(6)]
+		if k == gP && (tr == 0 || tr == 7) {
+			k = gN
+		}
+		p.Men[t] = gman(p.Black != (rng.IntN(8) != 0), k) // mostly owned by the side not to move
+	}
+	put := func(f, r int, m int8) bool {
+		if f < 0 || f > 7 || r < 0 || r > 7 || p.Men[r*8+f] != 0 {
+			return false
+		}
+		if int(m)&7 == gP && (r == 0 || r == 7) {
+			return false
+		}
+		p.Men[r*8+f] = m
+		return true
+	}
+	dirs := [][2]int{{1, 0}, {-1, 0}, {0, 1}, {0, -1}, {1, 1}, {1, -1}, {-1, 1}, {-1, -1}}
+	rng.Shuffle(len(dirs), func(i, j int) { dirs[i], dirs[j] = dirs[j], dirs[i] })
+	hidden := false // lateMinor: X's hidden bishop placed
+	for _, d := range dirs {
+		diag := d[0] != 0 && d[1] != 0
+		use := rng.IntN(10) < 6
+		if lateMinor && diag && !hidden {
+			use = true
+		}
+		if !use {
+			continue
+		}
+		f, r := tf+d[0], tr+d[1]
+		if rng.IntN(8) == 0 { // a gap before the row
+			f, r = f+d[0], r+d[1]
+		}
+		n := 1 + rng.IntN(3)
+		if lateMinor && diag && !hidden {
+			// front man, then X's bishop: own queen, or an enemy man that will capture along the diagonal
+			var front int8
+			switch rng.IntN(5) {
+			case 0, 1:
+				front = gman(xBlack, gQ)
+			case 2:
+				front = gman(!xBlack, gB)
+			case 3:
+				front = gman(!xBlack, gQ)
+			default:
+				// enemy pawn directly at t: a white pawn attacks upwards, i.e. stands below t (d[1] == -1)
+				if (d[1] == -1) == xBlack && f == tf+d[0] {
+					front = gman(!xBlack, gP)
+				} else {
+					front = gman(xBlack, gQ)
+				}
+			}
+			if put(f, r, front) && put(f+d[0], r+d[1], gman(xBlack, gB)) {
+				hidden = true
+				if rng.IntN(3) == 0 { // something further behind
+					put(f+2*d[0], r+2*d[1], gman(rng.IntN(2) == 1, []int{gB, gQ}[rng.IntN(2)]))
+				}
+			}
+			continue
+		}
+		prevBlack := rng.IntN(2) == 1
+		var row []int8
+		for i := 0; i < n; i++ {
+			black := prevBlack
+			if rng.IntN(2) == 0 {
+				black = !black
+			}
+			prevBlack = black
+			var k int
+			x := rng.IntN(12)
+			switch {
+			case i == 0 && x == 0:
+				k = gK
+			case i == 0 && diag && x <= 2:
+				k = gP
+			case x <= 6 && diag:
+				k = gB
+			case x <= 6:
+				k = gR
+			default:
+				k = gQ
+			}
+			if lateMinor && black == xBlack && (k == gP || (k == gB && i == 0)) {
+				k = gQ // X has no pawn and no directly attacking bishop
+			}
+			if k == gP {
+				// the pawn must attack t from this square: white from below, black from above
+				black = d[1] == 1
+				if lateMinor && black == xBlack {
+					k = gQ
+				}
+			}
+			row = append(row, gman(black, k))
+		}
+		if rng.IntN(2) == 0 {
+			// valuable in front, cheap behind (kings and pawns stay in the first slot)
+			for i := 1; i < len(row); i++ {
+				for j := i; j > 0 && int(row[j-1])&7 < int(row[j])&7 && int(row[j-1])&7 != gP && int(row[j-1])&7 != gK; j-- {
+					row[j-1], row[j] = row[j], row[j-1]
+				}
+			}
+		}
+		kings := 0
+		for _, m := range row {
+			if int(m)&7 == gK {
+				kings++
+			}
+		}
+		for _, m := range row {
+			if int(m)&7 == gK {
+				continue // kings are placed below
+			}
+			put(f, r, m)
+			f, r = f+d[0], r+d[1]
+			if rng.IntN(6) == 0 {
+				f, r = f+d[0], r+d[1]
+			}
+		}
+	}
+	if lateMinor && !hidden {
+		return p, false
+	}
+	for _, d := range [][2]int{{1, 2}, {2, 1}, {-1, 2}, {-2, 1}, {1, -2}, {2, -1}, {-1, -2}, {-2, -1}} {
+		if rng.IntN(10) < 2 {
+			black := rng.IntN(2) == 1
+			if lateMinor && black == xBlack {
+				black = !black
+			}
+			put(tf+d[0], tr+d[1], gman(black, gN))
+		}
+	}
+	// kings: next to t (last attackers) or far away
+	var ks [2]int
+	for side := 0; side < 2; side++ {
+		var cand []int
+		near := rng.IntN(5) < 2
+		for s := 0; s < 64; s++ {
+			if p.Men[s] != 0 || s == t {
+				continue
+			}
+			dist := max(iabs(s%8-tf), iabs(s/8-tr))
+			if (near && dist == 1) || (!near && dist >= 2) {
+				cand = append(cand, s)
+			}
+		}
+		if len(cand) == 0 {
+			return p, false
+		}
+		// a few tries for a square on which the king is not in check
+		ok := false
+		for try := 0; try < 12 && !ok; try++ {
+			s := cand[rng.IntN(len(cand))]
+			if side == 1 && max(iabs(s%8-ks[0]%8), iabs(s/8-ks[0]/8)) <= 1 {
+				continue
+			}
+			p.Men[s] = gman(side == 1, gK)
+			if p.Attacked(side == 0, s) && try < 11 {
+				p.Men[s] = 0
+				continue
+			}
+			ks[side] = s
+			ok = true
+		}
+		if !ok {
+			return p, false
+		}
+	}
+	if p.InCheck(!p.Black) {
+		p.Black = !p.Black
+		if p.InCheck(!p.Black) {
+			return p, false
+		}
+	}
+	if p.InCheck(p.Black) && rng.IntN(4) != 0 {
+		return p, false // mostly positions in which the captures on t are legal
+	}
+	return p, true
+}
+
 func iabs(x int) int {
 	if x < 0 {
 		return -x
@@ -239,11 +453,27 @@ func safeSEE(b *board.Board, m move.Move, thr Score) (res byte) {
 
 func (e *env) nextC18() (fen, src string) {
 	rng := e.c.Rng
+	if e.reg < len(c18Regression) {
+		e.reg++
+		return c18Regression[e.reg-1], "regression"
+	}
 	switch rng.IntN(10) {
-	case 0, 1, 2, 3, 4:
+	case 0, 1:
 		for {
 			if p, ok := Battery(rng); ok {
 				return p.FEN(), "battery"
+			}
+		}
+	case 2, 3, 4:
+		for {
+			if p, ok := Stacked(rng, false); ok {
+				return p.FEN(), "stacked"
+			}
+		}
+	case 6, 7:
+		for {
+			if p, ok := Stacked(rng, true); ok {
+				return p.FEN(), "stacked-lateminor"
 			}
 		}
 	case 5:
@@ -277,14 +507,14 @@ func (e *env) nextC18() (fen, src string) {
 }
 
 func (e *env) c18() {
-	n := e.c.Pick(800, 40000)
+	n := e.c.Pick(4000, 120000)
 	thrs := thresholds()
 	strs := make([]string, len(thrs))
 	for i, t := range thrs {
 		strs[i] = strconv.Itoa(t)
 	}
 	thrArg := strings.Join(strs, ",")
-	e.r.Rule = fmt.Sprintf("valid positions (directed batteries on one target square, en-passant cases after the double push, the shared stream: roots/play-outs/sparse..dense/promotion-heavy) x every legal move x %d thresholds (every multiple of 100 in [-1000,1700] and its successor, the domain ends +-1800): heur.SEE vs Lean Model.See.see vs decide(thr <= Spec.seeValue) (impl vs spec differs = failing-input), the model's incrementally maintained capture sequence vs the spec's from-scratch one (the two sides of lemma attackers_incremental), monotonicity in the threshold checked in Go; evaluations = (move, threshold) pairs; non-trivial = (FEN, move) whose exchange has >= 1 recapturer, distinct by (FEN, move)", len(thrs))
+	e.r.Rule = fmt.Sprintf("valid positions (a regression corpus first; directed generators: `battery` = sliders scattered on the lines through one target square, `stacked` = exchanges with 2-5 attackers per side arranged in rows on the lines through the target (B behind Q, Q behind B, R behind R/Q, B/Q behind a capturing pawn, mixed colours inside a row, valuable-in-front bias, kings next to the target as last attackers), `stacked-lateminor` = the same with one side having no pawn/knight/directly attacking bishop but a bishop hidden behind its own queen or an enemy pawn/bishop/queen; en-passant cases after the double push, the shared stream: roots/play-outs/sparse..dense/promotion-heavy) x every legal move x %d thresholds (every multiple of 100 in [-1000,1700] and its successor, the domain ends +-1800): heur.SEE vs Lean Model.See.see vs decide(thr <= Spec.seeValue) (impl vs spec differs = failing-input), the model's incrementally maintained capture sequence vs the spec's from-scratch one (the two sides of lemma attackers_incremental), monotonicity in the threshold checked in Go; evaluations = (move, threshold) pairs; non-trivial = (FEN, move) whose exchange has >= 1 recapturer, distinct by (FEN, move)", len(thrs))
 	for i := 0; i < n; i++ {
 		fen, src := e.nextC18()
 		b, valid := e.load("C18", fen)
@@ -303,11 +533,16 @@ func (e *env) c18() {
 			reqs[j] = fmt.Sprintf("see %d %s", m, thrArg)
 		}
 		ans := e.m.Batch(reqs)
+		moveHits := 0
+		fail := func(mm common.Mismatch) {
+			e.r.Fail(mm)
+			moveHits++
+		}
 		for j, m := range legal {
 			ops := []string{"fen " + fen, reqs[j]}
 			f := strings.Fields(ans[j])
 			if len(f) != 4 || len(f[0]) != len(thrs) {
-				e.r.Fail(common.Mismatch{Property: "C18", Kind: "broken-correspondence", Ops: ops, Model: ans[j], Note: "malformed driver answer"})
+				fail(common.Mismatch{Property: "C18", Kind: "broken-correspondence", Ops: ops, Model: ans[j], Note: "malformed driver answer"})
 				continue
 			}
 			specVal, _ := strconv.Atoi(f[1])
@@ -323,16 +558,16 @@ func (e *env) c18() {
 			e.r.Evaluations += len(thrs)
 			// monotone in Go: thresholds ascend, so the answers must be 1…10…0
 			if strings.Contains(string(impl), "01") || strings.Contains(string(impl), "P") {
-				e.r.Fail(common.Mismatch{Property: "C18", Kind: "failing-input", Ops: ops, Impl: string(impl), Spec: string(spec),
+				fail(common.Mismatch{Property: "C18", Kind: "failing-input", Ops: ops, Impl: string(impl), Spec: string(spec),
 					Note: "SEE is not monotone in the threshold (or panicked)"})
 			}
 			if string(impl) != string(spec) {
-				e.r.Fail(common.Mismatch{Property: "C18", Kind: "failing-input", Ops: ops, Impl: string(impl), Model: f[0], Spec: string(spec),
+				fail(common.Mismatch{Property: "C18", Kind: "failing-input", Ops: ops, Impl: string(impl), Model: f[0], Spec: string(spec),
 					Note: fmt.Sprintf("SEE differs from thr <= minimax value %d; capture sequence model %s spec %s", specVal, f[2], f[3])})
 			} else if string(impl) != f[0] {
-				e.r.Fail(common.Mismatch{Property: "C18", Kind: "broken-correspondence", Ops: ops, Impl: string(impl), Model: f[0], Spec: string(spec)})
+				fail(common.Mismatch{Property: "C18", Kind: "broken-correspondence", Ops: ops, Impl: string(impl), Model: f[0], Spec: string(spec)})
 			} else if f[2] != f[3] {
-				e.r.Fail(common.Mismatch{Property: "C18", Kind: "broken-correspondence", Ops: ops, Impl: string(impl), Model: f[2], Spec: f[3],
+				fail(common.Mismatch{Property: "C18", Kind: "broken-correspondence", Ops: ops, Impl: string(impl), Model: f[2], Spec: f[3],
 					Note: "lemma attackers_incremental contradicted on the model: incremental capture sequence differs from recomputation (answers agree on the tested thresholds)"})
 			}
 			// histogram / non-trivial
@@ -360,6 +595,10 @@ func (e *env) c18() {
 			if i < 40 && j == 0 {
 				e.r.Sample(map[string]any{"fen": fen, "move": m.String(), "value": specVal, "sequence": f[3], "answers": string(impl)}, 5)
 			}
+		}
+		if moveHits > 0 {
+			e.r.Count("hit-pos:"+src, 1)
+			e.r.Count("hit-moves:"+src, moveHits)
 		}
 	}
 }
